@@ -477,6 +477,8 @@ class Ops:
             raise EngineError("`in EnumClass` with non-member")
         elif c.kind == "opt":
             return self.contains(self.unwrap(c, node), x, node)
+        elif c.kind == "opaque":
+            return self.truth(self.call_ext("opaque.contains", [c, x], {}, node))
         elif c.kind == "ref" and c.rkind == "obj":
             f = c.cls.find_method(self.index, "__contains__")
             if f is None:
